@@ -152,6 +152,7 @@ def _cell(cont, idk, mi, ci):
             for si in range(len(SHAPES)):
                 if 'fast' in P and (ki + di + si) % int(P['fast']) != 0:
                     continue
+                scratchdir.count_cell(f'roundtrip container={cont} ids={idk} meta={mi} comp={ci} kspec={ki} dtype={di} shape={si}')
                 why = roundtrip(cont, idk, mi, ci, ki, di, si)
                 if why:
                     return False, {'container': CONTAINERS[cont], 'ids': IDKINDS[idk], 'meta': mi, 'write options': COMPRESSIONS[ci], 'kmerspec': str(KSPECS[ki]), 'stored dtype': DTYPES[di],
@@ -201,6 +202,7 @@ NAMES = ['x.gs', 'x.h5', 'x.fasta', 'x']
 
 
 def _foreign_concrete(kind, name_i):
+    scratchdir.count_cell(f'foreign content={kind} name={name_i}')
     path = os.path.join(_ROOT, f'f{kind}_{NAMES[name_i]}')
     fasta = b'>contig1 test\nACGTACGTACGTTTGACCATG\n>contig2\nATGACNNNNACGT\n'
     if kind == 0:
